@@ -2,8 +2,9 @@ import Pkgcore.Proofs.C25
 /-!
 # C25 — binary package tarballs round-trip their contents
 
-Property theorems only (partial strength: the tar byte format is `tarfile`'s, the relocation below symlinked
-directories is covered by the correspondence run only).  `addContents`/`addRest` mirror
+Property theorems only (the tar byte format is `tarfile`'s: contract; the relocation below symlinked directories
+is proved for archives in which no *symlink* is recorded below another symlink — for the others the code is
+order dependent, see `convert_nested_counterexample`).  `addContents`/`addRest` mirror
 `add_contents_to_tarfile`, `archiveToFsobj`/`readMember` mirror `archive_to_fsobj`, `convertArchive` mirrors
 `convert_archive` (`Model/C25.lean`); an archive is the list of its members.
 -/
@@ -154,6 +155,73 @@ theorem tar_roundtrip_files (c : Nat) (S : List Obj) (hg : Good S) :
     rw [skip x hxr, skip y hyr]
     exact hshare
 
+/-- **hard links, both directions**: two different names of the set come back with one inode iff they shared
+(dev, inode) and were link-compatible (`_can_be_hardlinked`) before -/
+theorem tar_roundtrip_inodes_iff (c : Nat) (S : List Obj) (hg : Good S) :
+    ∃ R, archiveToFsobj c (addContents S) = some R ∧
+      ∀ x y, .file x ∈ S → .file y ∈ S → x.loc ≠ y.loc →
+        (inoAt R x.loc).isSome = true ∧
+        (inoAt R x.loc = inoAt R y.loc ↔ canLink x y = true) := by
+  let dirs := C28.sortBy Obj.loc (S.filter Obj.isDir)
+  let rest := S.filter fun o => !o.isDir
+  have hdirs_mem : ∀ o, o ∈ dirs → o ∈ S ∧ o.isDir = true := fun o ho => by
+    have := (C28.sortBy_perm Obj.loc _).mem_iff.mp ho
+    exact ⟨(List.mem_filter.mp this).1, (List.mem_filter.mp this).2⟩
+  have hrest_mem : ∀ o, o ∈ rest → o ∈ S := fun o ho => (List.mem_filter.mp ho).1
+  have hrest_locs : (rest.map Obj.loc).Nodup := (List.filter_sublist.map Obj.loc).nodup hg.locs
+  have hspec := rt_spec c rest [] [] ⟨c + 1, 0, []⟩
+    ⟨fun k e h => by simp [List.lookup] at h, fun k e h => by simp [List.lookup] at h, fun k _ => rfl⟩
+    hrest_locs (fun o _ => rfl) (fun o ho => hg.paths o (hrest_mem o ho))
+    (fun l a c' mj mn h => hg.devs l a c' mj mn (hrest_mem _ h)) (fun _ _ => Or.inr trivial)
+    ⟨fun x _ e h => by simp [List.lookup] at h,
+     fun x y hx hy hk hks => (hg.links x y (hrest_mem _ hx) (hrest_mem _ hy) hk hks).1⟩
+  have hdirs_nf : ∀ o ∈ dirs, o.isReg = false := fun o ho => by
+    have := (hdirs_mem o ho).2
+    cases o <;> simp_all [Obj.isDir, Obj.isReg]
+  refine ⟨dirs ++ specRest c rest [] (c + 1) 0, ?_, ?_⟩
+  · unfold archiveToFsobj addContents
+    rw [readLoop_prefix c dirs _ _ hdirs_nf (fun o ho => hg.paths o (hdirs_mem o ho).1)
+      (fun l a c' mj mn h => hg.devs l a c' mj mn (hdirs_mem _ h).1), hspec]
+    rfl
+  · intro x y hx hy hne
+    have hxr : Obj.file x ∈ rest := List.mem_filter.mpr ⟨hx, rfl⟩
+    have hyr : Obj.file y ∈ rest := List.mem_filter.mpr ⟨hy, rfl⟩
+    have skip : ∀ (z : File), Obj.file z ∈ rest → inoAt (dirs ++ specRest c rest [] (c + 1) 0) z.loc
+        = inoAt (specRest c rest [] (c + 1) 0) z.loc := by
+      intro z hz
+      have hno : ∀ o ∈ dirs, (o.loc == z.loc) = false := by
+        intro o ho
+        have ⟨hoS, hod⟩ := hdirs_mem o ho
+        rw [beq_eq_false_iff_ne]
+        intro e
+        have hzS := hrest_mem _ hz
+        have : o = Obj.file z := C28.key_inj_of_nodup Obj.loc S hg.locs o (Obj.file z) hoS hzS e
+        rw [this] at hod
+        simp [Obj.isDir] at hod
+      unfold inoAt
+      rw [List.find?_append]
+      have : dirs.find? (·.loc == z.loc) = none := List.find?_eq_none.mpr (fun o ho => by simp [hno o ho])
+      rw [this]; rfl
+    rw [skip x hxr, skip y hyr]
+    obtain ⟨i, hi, _⟩ := specRest_ino_src c rest [] (c + 1) 0 hrest_locs x hxr
+    refine ⟨by rw [hi]; rfl, ?_, ?_⟩
+    · intro heq
+      have hconv := specRest_share_conv c rest [] (c + 1) 0
+        ⟨fun k i d h => by simp [List.lookup] at h, fun k k' i d d' h => by simp [List.lookup] at h⟩
+        hrest_locs x y hxr hyr hne heq
+      rw [canLink_iff x y hconv.1.symm, hconv.2, (hg.links x y hx hy hconv.1 hconv.2).1]
+      simp
+    · intro hcl
+      have hk : keyOf x = keyOf y := by
+        unfold canLink at hcl
+        simp only [Bool.and_eq_true, beq_iff_eq] at hcl
+        unfold keyOf; rw [hcl.1.1.2, hcl.1.2]
+      have hks : keySome x = true := by
+        unfold canLink at hcl
+        simp only [Bool.and_eq_true] at hcl
+        unfold keySome; rw [hcl.1.1.1.1, hcl.1.1.1.2]; rfl
+      exact (specRest_share c rest [] (c + 1) 0 hrest_locs x y hxr hyr hk hks).1
+
 /-- **an empty archive reads as an empty set**, and so does the archive written from the empty set -/
 theorem empty_archive_empty (c : Nat) :
     (archiveToFsobj c []).bind convertArchive = some [] ∧ roundTrip c [] = some [] ∧ addContents [] = [] := by
@@ -225,12 +293,93 @@ theorem convert_plain (raw : List Obj) (hp : Plain raw) : ∃ R, convertArchive 
     have hrev : ∀ x ∈ (C28.sortBy Obj.loc (raw.filter Obj.isSym)).reverse, childNodes t x.loc = [] := fun x hx =>
       hnoc x ((C28.sortBy_perm Obj.loc _).mem_iff.mp (List.mem_reverse.mp hx))
     rw [relocatePasses_stable _ _ t hrev]
-    have hm := hmiss (t.length * 64 + 63)
-    rw [show t.length * 64 + 63 + 1 = t.length * 64 + 64 from rfl] at hm
+    have hm := hmiss (maxLocLen t)
     simp only [hm, List.eraseDups_nil, List.map_nil]
     rfl
   · refine List.Perm.trans ?_ ((partition_perm t).trans hperm)
     exact ((C28.sortBy_perm _ _).append (C28.sortBy_perm _ _)).append (sortByNat_perm _ _)
+
+
+/-! ### relocation below symlinked directories
+
+`Relocatable raw` (`Proofs/C25.lean`): distinct locations; the symlinks sit at normalised locations (`LocNorm`) and no
+symlink is recorded below another symlink (`flat`); following at most `(symsOf raw).length` symlinks settles every
+location (`depth` — no cycle: a chain through every symlink once is that long); different entries resolve to
+different places (`inj`).  `placeOf raw e` is `e` at `resolveDir … e.loc` (`Spec/C25.lean`), defined without the
+code's loops. -/
+
+/-- **relocation** (guard: `Relocatable.flat` — no symlink recorded below another symlink — and `Relocatable.depth`;
+the statement without `flat` is false of the code, `convert_relocates_counterexample`; with longer resolution
+chains than the archive has symlinks the passes stop early, `convert_passes_counterexample`; on a cycle among
+symlinks recorded below symlinks the code does not terminate, `convert_cycle_counterexample`): for an archive whose
+symlinked directories form no cycle, `convert_archive` puts every entry at
+the resolved location of its recorded path — chains (`current → stable → v2`) and nests included —, loses and
+duplicates nothing (the result is a permutation of the relocated entries plus newly created directories, with
+pairwise different locations), leaves alone what needed no relocation, and reaches the fixpoint: no entry of the
+result (the created directories included) lies below a symlink of the result -/
+theorem convert_relocates_partial (raw : List Obj) (h : Relocatable raw) :
+    ∃ (R : List Obj) (added : List Str), convertArchive raw = some R ∧
+      R.Perm (raw.map (placeOf raw) ++ added.map newDir) ∧
+      (R.map Obj.loc).Nodup ∧
+      (∀ e ∈ raw, stepLoc (symsOf raw) e.loc = none → e ∈ R) ∧
+      (∀ s ∈ R, s.isSym = true → ∀ o ∈ R, isChild s.loc o.loc = false) := by
+  obtain ⟨R, added, h1, h2, h3, _, _, h6, h7⟩ := convert_flat_full raw h
+  exact ⟨R, added, h1, h2, h3, h6, h7⟩
+
+/-- **`add_missing_directories`, any set**: the directories created are exactly the proper ancestors of the
+entries that are not themselves entries (the root excepted), each once -/
+theorem missing_dirs_exact (t : List Obj) :
+    (addedDirs t).Nodup ∧ ∀ p, p ∈ addedDirs t ↔ p ∉ t.map Obj.loc ∧ p ≠ ['/'] ∧ p ≠ [] ∧ ∃ e ∈ t, p ∈ ancestors e.loc := by
+  refine ⟨nodup_eraseDups _, fun p => ?_⟩
+  unfold addedDirs
+  rw [List.mem_eraseDups, missingDirs_spec]
+
+/-- **missing directories** in `convert_archive` (same guard as `convert_relocates_partial`, which describes the
+relocated set): the directories created are exactly the proper ancestors of the
+relocated entries that are not themselves entries (the root excepted), each once -/
+theorem convert_adds_missing_dirs_partial (raw : List Obj) (h : Relocatable raw) :
+    ∃ (R : List Obj) (added : List Str), convertArchive raw = some R ∧
+      R.Perm (raw.map (placeOf raw) ++ added.map newDir) ∧ added.Nodup ∧
+      ∀ p, p ∈ added ↔ p ∉ (raw.map (placeOf raw)).map Obj.loc ∧ p ≠ ['/'] ∧ p ≠ [] ∧
+        ∃ e ∈ raw, p ∈ ancestors (placeOf raw e).loc := by
+  obtain ⟨R, added, h1, h2, _, h4, h5, _, _⟩ := convert_flat_full raw h
+  exact ⟨R, added, h1, h2, h4, h5⟩
+
+/-- **final ordering** (every archive): directories first, by location; then symlinks, fifos and devices, by
+location; then the regular files in the order of their data in the archive -/
+theorem convert_order (raw R : List Obj) (h : convertArchive raw = some R) :
+    ∃ A B C, R = A ++ B ++ C ∧
+      (∀ o ∈ A, o.isDir = true) ∧ A.Pairwise (fun a b => a.loc ≤ b.loc) ∧
+      (∀ o ∈ B, o.isDir = false ∧ o.isReg = false) ∧ B.Pairwise (fun a b => a.loc ≤ b.loc) ∧
+      (∀ o ∈ C, o.isReg = true) ∧ C.Pairwise (fun a b => srcOf a ≤ srcOf b) := by
+  unfold convertArchive at h
+  simp only at h
+  split at h
+  · cases h
+  · simp only [Option.some.injEq] at h
+    refine ⟨_, _, _, h.symm, ?_, C28.sortBy_pairwise Obj.loc _, ?_, C28.sortBy_pairwise Obj.loc _, ?_, sortByNat_pairwise _ _⟩
+    · intro o ho
+      exact (List.mem_filter.mp ((C28.sortBy_perm Obj.loc _).mem_iff.mp ho)).2
+    · intro o ho
+      have := (List.mem_filter.mp ((C28.sortBy_perm Obj.loc _).mem_iff.mp ho)).2
+      simpa using this
+    · intro o ho
+      exact (List.mem_filter.mp ((sortByNat_perm _ _).mem_iff.mp ho)).2
+
+/-- **name mangling**: every normalised absolute location (`/` followed by non-empty components without `/`,
+none of them `.` or `..`) survives `"./" + loc.lstrip("/")` followed by `abspath(join("/", name.strip("/")))` — the
+hypothesis `PathOK` of the round-trip theorems — and has the child prefix `loc + "/"` — the hypothesis `LocNorm` of
+the relocation theorems -/
+theorem pathok_normalised (comps : List Str) (hne : comps ≠ []) (h : ∀ c ∈ comps, GoodComp c) :
+    PathOK ('/' :: joinWith '/' comps) ∧ LocNorm ('/' :: joinWith '/' comps) :=
+  ⟨pathOK_of_normal comps hne h, locNorm_of_normal comps hne h⟩
+
+example : (∀ c ∈ ["usr".toList, "lib64".toList, "a b.so.1".toList], GoodComp c) ∧
+    '/' :: joinWith '/' ["usr".toList, "lib64".toList, "a b.so.1".toList] = "/usr/lib64/a b.so.1".toList := by
+  refine ⟨?_, by decide⟩
+  intro c hc
+  simp only [List.mem_cons, List.not_mem_nil, or_false] at hc
+  rcases hc with rfl | rfl | rfl <;> exact ⟨by decide, by decide, by decide, by decide⟩
 
 /-! ### the hypotheses are satisfiable -/
 
@@ -267,6 +416,64 @@ example : Plain [.dir "/usr".toList ⟨493, 0, 0, []⟩, .file ⟨"/usr/a".toLis
   · intro o ho
     simp only [List.mem_cons, List.not_mem_nil, or_false] at ho
     rcases ho with rfl | rfl | rfl <;> decide
+
+/-! ### chains and nests satisfy the hypotheses; what lies outside them -/
+
+def dirAttrs : Attrs := ⟨493, 0, 0, []⟩
+
+/-- `current → stable → v2`, a symlinked directory inside the resolved directory (`v2/lib → lib64`), and a symlink with
+a relative `..` target leading into the chain: the longest resolution follows all four symlinks -/
+def chainSet : List Obj :=
+  [.dir "/opt".toList dirAttrs,
+   .sym "/opt/current".toList "stable".toList dirAttrs,
+   .sym "/opt/stable".toList "v2".toList dirAttrs,
+   .dir "/opt/v2".toList dirAttrs,
+   .sym "/opt/v2/lib".toList "lib64".toList dirAttrs,
+   .sym "/srv/app".toList "../opt/current".toList dirAttrs,
+   .dir "/opt/current/bin".toList dirAttrs,
+   .file ⟨"/opt/current/bin/tool".toList, dirAttrs, some 1, some 2, 7, 0⟩,
+   .file ⟨"/srv/app/lib/y.so".toList, dirAttrs, some 1, some 3, 8, 1⟩]
+
+example : Relocatable chainSet := relocatable_of_check chainSet (by decide)
+
+example : chainSet.map (fun e => (placeOf chainSet e).loc) =
+    ["/opt", "/opt/current", "/opt/stable", "/opt/v2", "/opt/v2/lib", "/srv/app", "/opt/v2/bin", "/opt/v2/bin/tool",
+     "/opt/v2/lib64/y.so"].map String.toList := by decide
+
+example : (convertArchive chainSet).map (·.map Obj.loc) = some (["/opt", "/opt/v2", "/opt/v2/bin", "/opt/v2/lib64", "/srv",
+    "/opt/current", "/opt/stable", "/opt/v2/lib", "/srv/app", "/opt/v2/bin/tool", "/opt/v2/lib64/y.so"].map String.toList) := by
+  decide
+
+/-- a symlink recorded below a symlinked directory (`/p/a/b/c` below `/p/a/b`), whose carrier `/p/a/b` is itself
+relocated later (`/q/a → /w` lands on `/p/a`) -/
+def nestedSet : List Obj :=
+  [.sym "/p/a/b".toList "../z".toList dirAttrs, .sym "/p/a/b/c".toList "tc".toList dirAttrs,
+   .sym "/q".toList "/p".toList dirAttrs, .sym "/q/a".toList "/w".toList dirAttrs]
+
+/-- the statement without `flat` is false: the symlinks are relocated in sorted order, `/p/a/b/c` is moved through
+`/p/a/b → ../z` while `/p/a/b` still sits at its recorded place, and ends at `/p/z/c`; `/p/a/b` then moves to `/w/b`, so
+a live merge (`Spec.mergedLocs`) puts the entry at `/z/c` (open finding C25-symlink-below-symlink-order) -/
+theorem convert_relocates_counterexample :
+    (convertArchive nestedSet).map (·.map Obj.loc) = some (["/p", "/p/z", "/w", "/p/a", "/p/z/c", "/q", "/w/b"].map String.toList) ∧
+    (mergedLocs nestedSet).map (·.lookup "/p/a/b/c".toList) = some (some "/z/c".toList) := by decide
+
+/-- a symlink to an ancestor directory (`/d/m → /`) lets a resolution run through the same symlinks twice -/
+def ancestorLinkSet : List Obj :=
+  [.sym "/l".toList "/d".toList dirAttrs, .sym "/d/m".toList "/".toList dirAttrs,
+   .file ⟨"/l/m/l/m/x".toList, dirAttrs, none, none, 1, 0⟩]
+
+/-- `range(len(syms) + 1)` passes are not enough then: the file is left at `/d/m/x`, below the symlink `/d/m` (a live
+merge resolves it to `/x`; open finding C25-resolution-longer-than-symlinks) -/
+theorem convert_passes_counterexample :
+    (convertArchive ancestorLinkSet).map (fun R => R.any fun s => s.isSym && R.any fun o => isChild s.loc o.loc) = some true ∧
+    relocatableB ancestorLinkSet = false := by decide
+
+/-- a symlink pointing below itself with a symlink recorded below it -/
+def cycleSet : List Obj := [.sym "/a".toList "/a/x".toList dirAttrs, .sym "/a/x".toList "foo".toList dirAttrs]
+
+/-- the `while True` loop over the symlinks never ends on it (the model runs out of fuel; the code hangs: open
+finding C25-symlink-cycle-hang) -/
+theorem convert_cycle_counterexample : convertArchive cycleSet = none := by decide
 
 example : (roundTrip 100 exampleSet).map (List.map inodeOf) = some [none, none, none, some 101, some 101] := by decide
 
